@@ -163,7 +163,8 @@ def build_property(pid, cfg, thorough=False):
         names = theorem_names(f)
         res["obligations"] += [f"{f}:{n}" for n in names]
         vo = os.path.join(COQ, f.replace(".v", ".vo"))
-        if not os.path.exists(vo) or os.path.getmtime(vo) < os.path.getmtime(os.path.join(COQ, f)):
+        uptodate = run(["make", "-C", COQ, "-q", f.replace(".v", ".vo")]).returncode == 0
+        if not os.path.exists(vo) or not uptodate:
             err = [l for l in log.splitlines() if "Error" in l or l.startswith("File ")]
             res["reasons"].append(f"proof obligation: {f} does not compile: " + " | ".join(err[:4]))
             continue
